@@ -2355,3 +2355,172 @@ Lemma c07_stream_forwards : forall (n : nat) (r : rescls) (rest : list sans),
 Proof.
   intros n r rest. split; [apply stream_forwards_error|apply stream_forwards_create_error].
 Qed.
+
+(* ====================================================================== *)
+(* 11. a completion that carries an error AND a buffer id                   *)
+
+Lemma pinv_reset_ring id tS tO s s' :
+  pinv tS (id :: tO) s -> released s = false -> sh_reset s id = Ok s' ->
+  ring_ids s' = ring_ids s ++ [id].
+Proof.
+  intros H Hr E.
+  assert (Hid : id < nbuf s).
+  { apply (pinv_id_lt _ _ _ _ H). unfold tot. rewrite occ_cons, Nat.eqb_refl. lia. }
+  pose proof (p_tot _ _ _ H id Hid) as Eid. unfold tot in Eid. rewrite occ_cons, Nat.eqb_refl in Eid.
+  destruct (p_slots _ _ _ H Hr) as (Hlen & _).
+  assert (Hocc : occ id (ring_ids s) = 0) by lia.
+  pose proof (pinv_ring_room _ _ _ _ H Hid Hocc) as Hroom.
+  unfold sh_reset in E. rewrite (nth_error_nth' (slots s) id false) in E by lia.
+  set (s1 := set_slots s (set_nth (slots s) id true)) in E.
+  assert (Hri1 : ring_ids s1 = ring_ids s) by reflexivity.
+  destruct (uring s) eqn:Hu.
+  - pose proof (p_ring _ _ _ H Hu Hr) as Hwf.
+    assert (Hwf1 : ring_wf s1) by (destruct Hwf as [A B C]; constructor; assumption).
+    destruct (ring_push s1 id (p_pow _ _ _ H) Hu Hwf1 ltac:(rewrite Hri1; exact Hroom)) as (A & B & _).
+    rewrite A in E. injection E as <-. rewrite B, Hri1. reflexivity.
+  - unfold ctrl_reset in E. change (uring s1) with (uring s) in E. rewrite Hu in E. injection E as <-.
+    unfold ring_ids. cbn [uring set_queue set_slots s1 queue]. rewrite Hu. reflexivity.
+Qed.
+
+Lemma owners_ops_In id (f : opst -> list nat) mk l : forall k0 k o,
+  nth_error l k = Some o -> In id (f o) -> In (mk (k0 + k)) (owners_ops id f mk l k0).
+Proof.
+  induction l as [|a l IH]; intros k0 k o H Hin; [destruct k; discriminate|].
+  cbn [owners_ops]. apply in_or_app. destruct k as [|k]; cbn [nth_error] in H.
+  - injection H as ->. left. rewrite Nat.add_0_r. apply occ_In in Hin.
+    destruct (occ id (f o)) as [|n]; [lia|]. left; reflexivity.
+  - right. replace (k0 + S k) with (S k0 + k) by lia. apply (IH (S k0) k o H Hin).
+Qed.
+
+Lemma inv_owner_single s id o : inv s -> id < nbuf s -> In o (owners s id) -> owners s id = [o].
+Proof.
+  intros (P & _) Hid Hin. apply singleton_of_length; [|exact Hin].
+  rewrite owners_length. apply (p_tot _ _ _ P id Hid).
+Qed.
+
+(* set_result takes the buffer of a final completion whatever its result is:
+   afterwards the buffer is owned by the operation (and by nobody else) *)
+Theorem error_completion_taken s c rest id o :
+  inv s -> released s = false -> cq s = c :: rest -> c_more c = false -> c_id c = Some id ->
+  nth_error (ops s) (c_op c) = Some o -> o_buf o = [] ->
+  exists s', step s LCqe = Some (Ok s') /\ inv s' /\ released s' = false /\
+    ring_ids s' = ring_ids s /\
+    nth_error (ops s') (c_op c) = Some (mk_op (o_inflight o) (o_kdone o) [id] (o_q o) (Some (c_res c))) /\
+    owners s' id = [OwInOp (c_op c)].
+Proof.
+  intros Hinv Hr Hc Hm Hid Hk Hb.
+  pose proof (step_good s LCqe Hinv) as G.
+  cbn [step] in G |- *. rewrite Hr, Hc in G |- *. cbn [set_cq ops] in G |- *.
+  rewrite Hk, Hm, Hid in G |- *.
+  destruct (slot_take (slots (set_cq s rest)) id) as [sl|]; [|contradiction].
+  rewrite Hb in G |- *. cbn [reset_all good] in G |- *.
+  eexists. split; [reflexivity|]. split; [exact G|]. split; [exact Hr|]. split; [reflexivity|].
+  assert (Hnth : nth_error
+      (ops (set_nbusy (upd_op (set_slots (set_cq s rest) sl) (c_op c)
+         (mk_op (o_inflight o) (o_kdone o) [id] (o_q o) (Some (c_res c))))
+         (nbusy (set_cq s rest) + (if rescls_eqb (c_res c) RNoBufs then 1 else 0)))) (c_op c)
+      = Some (mk_op (o_inflight o) (o_kdone o) [id] (o_q o) (Some (c_res c)))).
+  { unfold upd_op, set_ops, set_nbusy. cbn [ops]. apply set_nth_eq. eapply nth_error_lt; eauto. }
+  split; [exact Hnth|].
+  pose proof G as (P' & _).
+  assert (Hin : In (OwInOp (c_op c)) (owners _ id)).
+  { unfold owners. do 4 (apply in_or_app; right). apply in_or_app. left.
+    apply (owners_ops_In id o_buf OwInOp _ 0 (c_op c) _ Hnth). left; reflexivity. }
+  apply (inv_owner_single _ id _ G); [|exact Hin].
+  apply (pinv_id_lt _ _ _ _ P'). rewrite <- owners_length.
+  destruct (owners _ id); [destruct Hin|cbn [length]; lia].
+Qed.
+
+(* dropping the operation returns its buffer to the ring tail *)
+Theorem op_drop_returns_buffer s k o id b :
+  inv s -> released s = false -> nth_error (ops s) k = Some o -> o_buf o = id :: b -> op_free s o = true ->
+  exists s', step s (LOpBufDrop k) = Some (Ok s') /\ inv s' /\ released s' = false /\
+    ring_ids s' = ring_ids s ++ [id] /\ owners s' id = [OwRing].
+Proof.
+  intros Hinv Hr Hk Hb Hf. pose proof Hinv as (P & Hh).
+  pose proof (step_good s (LOpBufDrop k) Hinv) as G.
+  cbn [step] in G |- *. rewrite Hk, Hf, Hb in G |- *. cbn [negb] in G |- *.
+  set (o' := mk_op (o_inflight o) (o_kdone o) b (o_q o) (o_res o)) in *.
+  assert (P1 : pinv [] [id] (upd_op s k o')).
+  { apply (pinv_shift [] [] [] [id] s _ P).
+    - apply same_pool_upd_op.
+    - intros x. pose proof (sums_upd_op s k o o' x Hk) as (A & _).
+      unfold guard_ids_of in A. cbn [o_q o'] in A. lia.
+    - intros x. pose proof (sums_upd_op s k o o' x Hk) as (_ & A).
+      cbn [o_buf o'] in A. rewrite Hb in A. occs in A. occs. lia.
+    - intros A. congruence. }
+  destruct (sh_reset (upd_op s k o') id) as [s'|pc] eqn:E; [|contradiction].
+  cbn [good] in G. exists s'. split; [reflexivity|]. split; [exact G|].
+  pose proof (sh_reset_holders _ _ _ E) as (_ & _ & R & _).
+  split; [rewrite R; exact Hr|].
+  pose proof (pinv_reset_ring id [] [] _ s' P1 Hr E) as Hri.
+  change (ring_ids (upd_op s k o')) with (ring_ids s) in Hri.
+  split; [exact Hri|].
+  pose proof G as (P' & _).
+  assert (Hin : In OwRing (owners s' id)).
+  { unfold owners. apply in_or_app. left. rewrite Hri, occ_app, occ_one, Nat.eqb_refl.
+    rewrite Nat.add_comm. cbn [plus repeat]. left; reflexivity. }
+  apply (inv_owner_single _ id _ G); [|exact Hin].
+  apply (pinv_id_lt _ _ _ _ P'). rewrite <- owners_length.
+  destruct (owners s' id); [destruct Hin|cbn [length]; lia].
+Qed.
+
+(* the whole path: the kernel consumes the ring head for a read that then fails
+   (any result class but -ENOBUFS: EISDIR, EBADF, EIO, a cancellation, EOF, data),
+   the driver reaps the completion, the operation is dropped: the buffer is back
+   at the ring tail, owned by the ring only, and the ring is as long as before *)
+Theorem error_completion_returns_buffer u size ls s k o id rest r :
+  1 <= size -> (NN size <= 32768)%N -> reach u size ls s -> uring s = true -> released s = false ->
+  ring_ids s = id :: rest -> cq s = [] ->
+  nth_error (ops s) k = Some o -> o_inflight o = true -> o_kdone o = false -> o_buf o = [] ->
+  r <> RNoBufs ->
+  exists s', steps s [LKernel k true false r; LCqe; LOpBufDrop k] = Some (Ok s') /\
+    released s' = false /\ ring_ids s' = rest ++ [id] /\ owners s' id = [OwRing] /\
+    length (ring_ids s') = length (ring_ids s).
+Proof.
+  intros H1 H2 Hr Hu Hrel Hri Hc Hk Hi Hd Hb Hne.
+  pose proof (reach_inv u size ls s H1 H2 Hr) as Hinv. pose proof Hinv as (P & _).
+  pose proof (ring_pop s (p_pow _ _ _ P) Hu (p_ring _ _ _ P Hu Hrel)) as Hpop. rewrite Hri in Hpop.
+  destruct Hpop as (Hks & Hri1 & _).
+  set (sk := set_ring s (cells s) (tail s) (u16_wrapping_add (head s) 1)) in *.
+  set (o1 := mk_op false true (o_buf o) (o_q o) (o_res o)).
+  set (c := mk_cqe k (Some id) false r).
+  set (s1 := set_cq (upd_op sk k o1) (cq sk ++ [c])).
+  assert (Hrn : rescls_eqb r RNoBufs = false) by (destruct r; try reflexivity; congruence).
+  assert (E1 : step s (LKernel k true false r) = Some (Ok s1)).
+  { cbn [step]. rewrite Hk, Hd, Hu, Hi, Hrel, Hrn. cbn [negb andb orb]. rewrite Hks.
+    rewrite Bool.andb_false_r. reflexivity. }
+  pose proof (step_good s _ Hinv) as G1. rewrite E1 in G1. cbn [good] in G1.
+  assert (Hk1 : nth_error (ops s1) k = Some o1).
+  { unfold s1, upd_op, set_ops, set_cq. cbn [ops]. apply set_nth_eq. eapply nth_error_lt; eauto. }
+  destruct (error_completion_taken s1 c [] id o1 G1 Hrel
+              ltac:(unfold s1; cbn [cq set_cq sk set_ring upd_op set_ops]; rewrite Hc; reflexivity)
+              eq_refl eq_refl Hk1 Hb)
+    as (s2 & E2 & G2 & R2 & Hri2 & Hk2 & _).
+  cbn [c_op c c_res o_inflight o_kdone o_q o1] in Hk2.
+  destruct (op_drop_returns_buffer s2 k _ id [] G2 R2 Hk2 eq_refl
+              ltac:(unfold op_free; rewrite R2; reflexivity))
+    as (s3 & E3 & _ & R3 & Hri3 & Hown).
+  exists s3. split; [cbn [steps]; rewrite E1, E2, E3; reflexivity|]. split; [exact R3|].
+  assert (Hr1 : ring_ids s1 = rest) by exact Hri1.
+  rewrite Hri2, Hr1 in Hri3. split; [exact Hri3|]. split; [exact Hown|].
+  rewrite Hri3, Hri, app_length. cbn [length]. lia.
+Qed.
+
+Lemma c07_error_completion_returns_buffer :
+  forall (size : nat) (s0 : st) (ls : list label) (s : st) (k : nat) (o : opst) (id : nat) (rest : list nat) (r : rescls),
+  1 <= size -> (NN size <= 32768)%N ->
+  pool_new true size = Ok s0 -> steps s0 ls = Some (Ok s) -> released s = false ->
+  ring_ids s = id :: rest -> cq s = [] ->
+  nth_error (ops s) k = Some o -> o_inflight o = true -> o_kdone o = false -> o_buf o = [] ->
+  r <> RNoBufs ->
+  exists s', steps s [LKernel k true false r; LCqe; LOpBufDrop k] = Some (Ok s') /\
+    released s' = false /\ ring_ids s' = rest ++ [id] /\ owners s' id = [OwRing] /\
+    length (ring_ids s') = length (ring_ids s).
+Proof.
+  intros size s0 ls s k o id rest r H1 H2 A B Hrel.
+  assert (Hu : uring s = true).
+  { destruct (pool_new_inv true size H1 H2) as (s0' & E0' & _ & _ & Hu0 & _).
+    rewrite A in E0'. injection E0' as <-. destruct (steps_nbuf _ _ _ B) as (_ & C). congruence. }
+  apply (error_completion_returns_buffer true size ls s k o id rest r H1 H2 (reach_of _ _ _ _ _ A B) Hu Hrel).
+Qed.
